@@ -63,9 +63,12 @@ UrlEscapeOK(in, out, out2) ==
   /\ out2 = out                                    \* idempotent
 
 FFFD == <<239, 191, 189>>
-ResolveOK(in, out, oor) ==
+ResolveOK(in, out, oor, oorlong) ==
   /\ ValidUTF8(in) => ValidUTF8(out)
   /\ oor => out = FFFD
+  \* a numeric reference of any length whose value lies above U+10FFFF yields U+FFFD or stays
+  \* as it is; it never becomes another character (no wrap-around)
+  /\ oorlong => (out = FFFD \/ out = in)
 
 LabelOK(out, out2, outv) == out2 = out /\ outv = out
 
@@ -76,7 +79,7 @@ PInit == l = 1 /\ bad = <<>>
 Judge(e) ==
   CASE e.fn = "EscapeHTML" -> EscapeOK(e.in, e.out)
     [] e.fn = "URLEscape"  -> UrlEscapeOK(e.in, e.out, e.out2)
-    [] e.fn \in {"UnescapePunctuations", "ResolveNumericReferences", "ResolveEntityNames"} -> ResolveOK(e.in, e.out, e.oor)
+    [] e.fn \in {"UnescapePunctuations", "ResolveNumericReferences", "ResolveEntityNames"} -> ResolveOK(e.in, e.out, e.oor, e.oorlong)
     [] e.fn = "ToLinkReference" -> LabelOK(e.out, e.out2, e.outv)
     [] OTHER -> FALSE
 PNext == /\ l <= Len(Pairs)
